@@ -122,6 +122,18 @@ def run(pid, tier, replay=None):
             for (o, b) in muts:
                 m = raw[:o] + bytes([raw[o] ^ (1 << b)]) + raw[o + 1:]
                 events.append(one(m, o, b, cls(o), blk, cs_full, now, stats, cs_wo))
+            # two bits at a time inside the header: the same bit position in two different bytes (alterations that a byte-wise checksum
+            # would let cancel), in the evidence and in the summary
+            hdr_bytes = [o_ for o_ in range(len(raw)) if cls(o_) in ("evidence", "summary", "summary_height")]
+            for _ in range(400 if quick else 6000):
+                if len(hdr_bytes) < 2:
+                    break
+                o1, o2 = rng.sample(hdr_bytes, 2)
+                b_ = rng.randrange(8)
+                mm = bytearray(raw)
+                mm[o1] ^= 1 << b_
+                mm[o2] ^= 1 << b_
+                events.append(one(bytes(mm), o1, b_, "header_pair", blk, cs_full, now, stats, cs_wo))
             for cut in range(0, len(raw)):
                 events.append(one(raw[:cut], cut, -1, cls(min(cut, len(raw) - 1)), blk, cs_full, now, stats, cs_wo))
             tid += 1
